@@ -135,6 +135,11 @@ def check(ctx: Ctx) -> None:
                     try:
                         r = it.await_(it.call(it.getattr(h.rc_eval, "evaluate_conditions", None, None), [list(keys), Opaque_data()], {}, None, None), None, None)
                         out["rc"] = {k: (v.name if isinstance(v, EnumVal) else repr(v)) for k, v in r.items()}
+                        if len(keys) > 1:  # the documented optional parameter: a context for some of the keys only
+                            ctxs = {keys[1]: Obj("ahbicht.content_evaluation.evaluationdatatypes.EvaluationContext", {"scope": "$"})}
+                            r2 = it.await_(it.call(it.getattr(h.rc_eval, "evaluate_conditions", None, None), [list(keys), Opaque_data(), ctxs], {}, None, None), None, None)
+                            if {k: (v.name if isinstance(v, EnumVal) else repr(v)) for k, v in r2.items()} != out["rc"]:
+                                out["rc"] = {"with-context-for": keys[1], "got": {k: repr(v) for k, v in r2.items()}}
                         r = it.await_(it.call(it.getattr(h.fc_eval, "evaluate_format_constraints", None, None), [[f"90{k}" for k in keys]], {}, None, None), None, None)
                         out["fc"] = {k: (v.fields.get("format_constraint_fulfilled"), v.fields.get("error_message")) for k, v in r.items()}
                         r = it.await_(it.call(it.getattr(h.hints, "get_hints", None, None), [[f"50{k}" for k in keys]], {}, None, None), None, None)
@@ -233,5 +238,8 @@ def check(ctx: Ctx) -> None:
                "evaluation results must not depend on other (concurrent or earlier) evaluations",
                extra_classes=["ahbicht.content_evaluation.evaluators.Evaluator", "ahbicht.expressions.hints_provider.HintsProvider",
                               "ahbicht.expressions.package_expansion.PackageResolver"])
+    from ..purity import check_models_and_transformers
+
+    check_models_and_transformers(ctx, "C12.state", "evaluation must not depend on earlier evaluations")
     ctx.assume("L5 (gather: argument order, own task/context copy per coroutine), L6 (inject.params resolves the provider at call time in the calling task)")
     ctx.assume("user-supplied evaluators that share state among themselves are outside the property")
